@@ -89,6 +89,9 @@ Table == [
   payloadType |-> [size |-> 4,
       fields |-> << F("high", 0, 16), F("messageType", 16, 8), F("rawPayloadType", 24, 8) >>,
       views  |-> << F("type", 0, 32) >>],
+  payload |-> [size |-> 4,               \* a generic Payload: its 32 bit type word, followed by its data bytes
+      fields |-> << F("high", 0, 16), F("messageType", 16, 8), F("rawPayloadType", 24, 8) >>,
+      views  |-> << F("type", 0, 32) >>],
   packet |-> [size |-> 22,
       fields |-> << F("version", 0, 8), F("deviceId", 8, 16), F("streamId", 24, 8), F("sequenceCounter", 32, 16),
                     F("timestamp", 48, 64), F("interfaceId", 112, 32), F("vendorId", 144, 16), F("commonFlags", 160, 8),
@@ -98,7 +101,7 @@ Table == [
 ]
 
 Classes == DOMAIN Table
-WireClasses == Classes \ {"payloadType", "packet"}
+WireClasses == Classes \ {"payloadType", "payload", "packet"}
 
 AllFields(c) == Table[c].fields \o Table[c].views
 FieldOf(c, name) == LET a == AllFields(c) IN a[CHOOSE k \in 1..Len(a) : a[k].n = name]
